@@ -155,8 +155,8 @@ pub fn run(ctx: &Ctx) -> Report {
             _ => {}
         }
         if idx % 2000 == 7 {
-            // hourly series (a plain and a leap year): the matching factor is a per-step formula whatever the step length
-            o.steps = Some(*r.pick(&[8760usize, 8784]));
+            // hourly series (a plain and a leap year) and a half-hourly one: the matching factor is a per-step formula whatever the step length
+            o.steps = Some(*r.pick(&[8760usize, 8784, 17520]));
             o.pv = Tri::Always;
             t.count("hourly_series");
         }
